@@ -164,6 +164,11 @@ structure ArgSite where
 (`collect.py:355-360` → `collect_utils.py:84-92, 228-250, 253-276`): the task is identified by its *module path*. -/
 def nodeInfoOfArg (s : ArgSite) : NodeInfo := ⟨s.param, s.treePath, s.taskName, s.modulePath⟩
 
+/-- The `NodeInfo` of the single PythonNode that replaces a *container* of unhashed python values given for one parameter
+(`collect_utils.py:94-116`): the parameter as a whole (empty tree path) of that task.  (Before 91d0d18 the node got no
+`NodeInfo` at all — F41.) -/
+def nodeInfoOfMerged (s : ArgSite) : Option NodeInfo := some ⟨s.param, [], s.taskName, s.modulePath⟩
+
 def sigTask (base path : Str) : Str := sigOf sha Generated.sigTaskFields (envTask base path)
 def sigTaskWithoutPath (name : Str) : Str :=
   sigOf sha Generated.sigTaskWithoutPathFields (envTaskWithoutPath name)
